@@ -145,6 +145,12 @@ def fmt(t, depth=0):
         return 'cast(%s)' % fmt(t[1], d)
     if k == 'elem':
         return 'elem(%s)' % fmt(t[1], d)
+    if k in ('env', 'next', 'len', 'repeat'):
+        return '%s(%s)' % (k, fmt(t[1], d))
+    if k == 'callv':
+        return 'callv(%s; %s)' % (fmt(t[1], d), ', '.join(fmt(a, d) for a in t[2]))
+    if k == 'index':
+        return '%s[%s]' % (fmt(t[1], d), fmt(t[2], d))
     if k == 'phi':
         return 'phi(%s)' % ' | '.join(fmt(a, d) for a in t[1])
     if k == 'unknown':
